@@ -195,6 +195,15 @@ fn find_words_ascii_space<'a>(line: &'a str) -> Box<dyn Iterator<Item = Word<'a>
 
     Box::new(std::iter::from_fn(move || {
         for (idx, ch) in char_indices.by_ref() {
+            #[cfg(feature = "verif-hooks")]
+            crate::verif::emit(
+                "ascii_space.char",
+                &[
+                    crate::verif::n(idx),
+                    i64::from(in_whitespace),
+                    crate::verif::n(start),
+                ],
+            );
             if in_whitespace && ch != ' ' {
                 let word = Word::from(&line[start..idx]);
                 start = idx;
@@ -286,7 +295,14 @@ fn find_words_unicode_break_properties<'a>(
     let mut start = 0;
     Box::new(std::iter::from_fn(move || {
         for (idx, _) in opportunities.by_ref() {
+            #[cfg(feature = "verif-hooks")]
+            crate::verif::emit(
+                "unicode_break.opportunity",
+                &[crate::verif::n(idx), crate::verif::n(start)],
+            );
             if let Some((orig_idx, _)) = idx_map.find(|&(_, stripped_idx)| stripped_idx == idx) {
+                #[cfg(feature = "verif-hooks")]
+                crate::verif::emit("unicode_break.word", &[crate::verif::n(orig_idx)]);
                 let word = Word::from(&line[start..orig_idx]);
                 start = orig_idx;
                 return Some(word);
